@@ -82,6 +82,10 @@ func (pnf *PageNumberFinder) FindPagination(root *html.Node, pageURL *nurl.URL) 
 
 	url := *pageURL
 	url.User = nil // the parameter detector drops the user info as well
+	// A fragment is not part of the address of the page. The detection works on
+	// URL strings that are parsed with ParseRequestURI, which would take the
+	// fragment for the end of the path or of the query.
+	url.Fragment, url.RawFragment = "", ""
 	stringutil.TrimTrailingSlash(&url)
 	// The page infos hold escaped URLs (URL.String()), so the page URL they
 	// are compared with must be in the same form.
